@@ -268,9 +268,15 @@ SRCF_STRATEGY_FUNCS = [
     (None, "int_to_bits", {"int_val": "int", "dialect": "optedialect", "word_sep": "optstr"}),
     (None, "valid_bin", {"bin_val": "str", "dialect": "optedialect"}), (None, "int_to_bin", {"int_val": "int"}),
     (None, "bin_to_int", {"bin_val": "str"}), (None, "int_to_str", {"int_val": "int", "dialect": "optedialect"})]
+SRCF_STRATEGY_FUNCS48 = [(None, "valid_str", {"addr": "str"}), (None, "str_to_int", {"addr": "str"})]
+SRCF_STRATEGY_FUNCS64 = [(None, "_get_match_result", {"address": "str", "formats": "list pat"}),
+                         (None, "valid_str", {"addr": "str"}), (None, "str_to_int", {"addr": "str"})]
+# the compiled regular expressions: module-level list -> the hand-compiled matchers of Model/Eui.v (Proofs/GenOk_C08.v proves that
+# the regenerated pattern strings of the source are the renderings of exactly these matchers, in order, flags IGNORECASE|UNICODE)
+SRCF_TABLES = {"eui48_": {"RE_MAC_FORMATS": "mac_pats"}, "eui64_": {"RE_EUI64_FORMATS": "eui64_pats"}}
 SRCF_UNITS = [
-    ("netaddr/strategy/eui48.py", "pysrc_eui48b_gen.v", "eui48_", SRCF_REQ, list(SRCF_STRATEGY_FUNCS)),
-    ("netaddr/strategy/eui64.py", "pysrc_eui64b_gen.v", "eui64_", SRCF_REQ, list(SRCF_STRATEGY_FUNCS)),
+    ("netaddr/strategy/eui48.py", "pysrc_eui48b_gen.v", "eui48_", SRCF_REQ, SRCF_STRATEGY_FUNCS + SRCF_STRATEGY_FUNCS48),
+    ("netaddr/strategy/eui64.py", "pysrc_eui64b_gen.v", "eui64_", SRCF_REQ, SRCF_STRATEGY_FUNCS + SRCF_STRATEGY_FUNCS64),
     ("netaddr/eui/__init__.py", "pysrc_euib_gen.v", "", SRCF_REQ + " Gen.pysrc_eui48b_gen Gen.pysrc_eui64b_gen", [
         ("EUI", "words", {}), ("EUI", "packed", {}), ("EUI", "bin", {}), ("EUI", "bits", {"word_sep": "optstr"}),
         ("EUI", "ei", {}), ("EUI", "iab", {}),
@@ -286,15 +292,18 @@ UNITS += SRCF_UNITS
 FILES = FILES + tuple(u[1] for u in SRCF_UNITS)
 STATE["IAB"] = ()
 COQTY.update({"edialect": "dialect_t", "optedialect": "(option dialect_t)", "optstr": "(option string)", "darg": "darg"})
-SRCF_VALUE_TYPES = ("edialect", "optedialect", "optstr", "darg")
+SRCF_VALUE_TYPES = ("edialect", "optedialect", "optstr", "darg", "pat", "matches", "optgroups")
+COQTY.update({"pat": "pat", "matches": "(option (list string))", "optgroups": "(option (list string))"})
 # netaddr.strategy.int_to_bits is not translated (nested while inside for): the call is its hand model (SrcPreludeEui2.py_int_to_bits)
 EXTERN["netaddr.strategy.int_to_bits"] = ("py_int_to_bits", ("int", "int", "int", "str"), "str")
 # names the generated text of these units uses as symbols: a Python local of that name gets a trailing underscore
 SRCF_RESERVED = set("dialect_t mk_dialect d_word_size d_num_words d_word_sep d_word_fmt d_pair py_struct_pack py_struct_unpack "
                     "py_int_to_bits py_getitem_o py_setitem_o py_slice_lit py_fmt_int py_fmt_ints py_map_o py_hash_pair join map "
-                    "dialect darg DNone DRec DBad word_size num_words word_sep word_fmt".split())
+                    "dialect darg DNone DRec DBad word_size num_words word_sep word_fmt pat mac_pats eui64_pats py_findall "
+                    "py_matches_len py_found py_match0 py_is_tuple py_group_str py_optgroups_truthy".split())
 BY_FILE = {}        # (SRCF) source file -> all translators made for it, in unit order (filled by generate())
 FN_CLASS = {}       # (SRCF) output file -> the subclass of Fn that translates that unit's functions
+PURE_METHODS = PURE_METHODS + ("findall",)         # <compiled pattern>.findall(text) does not change the pattern object
 SRCF_STRUCT_SIZES = {"B": 1, "H": 2, "I": 4}       # struct format characters (big-endian, standard sizes) -> bytes per field
 
 
@@ -2079,7 +2088,7 @@ class FnF(Fn):
             out.append(self.coerce(node, ty, t, pty))
         return out
 
-    def generated_d(self, node, d, state, args):
+    def generated_d(self, node, d, state, args, optional_ok=False):
         """Fn.generated for an already found definition d (possibly of a unit this file does not import by name)"""
         if FILES.index(d.file) > FILES.index(self.file):
             bad(node, "%s lives in %s, which comes after %s" % (d.cname, d.file, self.file))
@@ -2090,7 +2099,7 @@ class FnF(Fn):
         for (ty, _), (_, pty) in zip(args, d.params):
             unify(node, ty, pty, "argument of %s" % d.cname)
         term = "(%s)" % " ".join([d.cname] + ([state] if state else []) + [t for _, t in args])
-        if d.optional or d.mutating:
+        if (d.optional and not optional_ok) or d.mutating:
             bad(node, "use of %s, which may return None or assigns the object state" % d.cname)
         return ("out", d.kind, term) if d.outcome else (d.kind, term)
 
@@ -2108,7 +2117,79 @@ class FnF(Fn):
 
     def callfn(self, node, name, env):
         d = self.tr.get(None, name, node)
-        return self.generated(node, None, name, "", self.bind_args(node, d, env))
+        args = self.bind_args(node, d, env)
+        if d.optional and is_list(d.kind) and d.kind[1].find().t == "str" and not d.mutating:
+            r = self.generated_d(node, d, "", args, optional_ok=True)      # the groups of a match, or None
+            return ("out", "optgroups", r[2]) if r[0] == "out" else ("optgroups", r[1])
+        return self.generated(node, None, name, "", args)
+
+    def bool_(self, node, env):
+        snap, pre0 = self.snapshot(), list(self.pre)
+        self.opt_ok = None
+        ty, t = self.ex(node, env)
+        if ty == "matches":
+            return "(py_found %s)" % t                      # truth of a findall() result
+        if ty == "optgroups":
+            return "(py_optgroups_truthy %s)" % t           # truth of None / the groups of a match
+        self.restore(snap)
+        self.pre = pre0
+        return Fn.bool_(self, node, env)
+
+    def finish(self):
+        """Fn.finish, also for a function that returns from inside a loop and None at its end"""
+        rets = [l for l in self.leaves(self.ir) if l[0] == "ret" and l[1] != "@loop"]
+        if self.lrets and any(l[1] == "none" for l in rets) and not self.mutating:
+            kinds = [l[1] for l in rets if l[1] != "none"] + self.lrets
+            for kd in kinds[1:]:
+                unify(self.f, kd, kinds[0], "return values")
+            self.kind = self.retkind = kinds[0]
+            self.optional, self.outcome = True, self.effects(self.ir)
+            base = "(option %s)" % coqty(self.kind, self.f)
+            self.type = "outcome " + base if self.outcome else unparen(base)
+            self.fresh = False
+            return
+        Fn.finish(self)
+
+    def render(self, ir, ind, oc, optional=False):
+        if ir[0] == "lmatch" and optional:                  # the loop returned r: the function's (optional) result is Some r
+            i2 = ind + "  "
+            sub = self.render(ir[4], i2, oc, optional) if ir[4][0] in ("ret", "raise", "jret", "lret") else "(" + self.render(ir[4], i2 + " ", oc, optional) + ")"
+            return "match %s with\n%s| inl %s => %s\n%s| inr %s =>\n%s%s\n%send" % (
+                ir[1], ind, ir[2], ("Ok (Some %s)" if oc else "(Some %s)") % ir[2], ind, ir[3], i2, sub, ind)
+        if ir[0] == "let" and ir[2] == "[]" and re.fullmatch(r"\w+", ir[1]):
+            body = self.render(ir[3], ind, oc, optional)
+            m = re.search(r"\b%s\b" % re.escape(ir[1]), body)
+            if m and re.search(r"(^|\s)(do|let) $", body[:m.start()]):
+                return body                 # an empty list that is rebound before it is ever read: dropped (its element type is unknown)
+        return Fn.render(self, ir, ind, oc, optional)
+
+    def block(self, stmts, env, k, after):
+        s = stmts[0] if stmts else None
+        if (isinstance(s, ast.Try) and len(s.handlers) == 1 and dotted(s.handlers[0].type) == "TypeError" and "TypeError" not in env
+                and not self.mod.toplevel("TypeError") and not s.orelse and not s.finalbody and len(s.handlers[0].body) == 1
+                and isinstance(s.handlers[0].body[0], ast.Pass)
+                and all((isinstance(c.func, ast.Attribute) and c.func.attr == "findall" and isinstance(c.func.value, ast.Name)
+                         and env.get(c.func.value.id, ("",))[0] == "pat" and len(c.args) == 1 and isinstance(c.args[0], ast.Name)
+                         and env.get(c.args[0].id, ("",))[0] == "str") or self.builtin_call(c, "len", env, 1)
+                        for st in s.body for c in ast.walk(st) if isinstance(c, ast.Call))
+                and not any(isinstance(n, (ast.Raise, ast.BinOp, ast.Subscript, ast.Attribute)) and not (
+                    isinstance(n, ast.Attribute) and n.attr == "findall") for st in s.body for n in ast.walk(st))):
+            # try: <findall on text, len, comparisons, assignments, return> / except TypeError: pass -- nothing in the body can
+            # raise TypeError (the pattern is a compiled expression, the argument is text): the handler is dead code
+            return self.block(s.body + list(stmts[1:]), env, k, after)
+        return Fn.block(self, stmts, env, k, after)
+
+    def if_cond(self, s, c, rest, env, k, after):
+        """the tail of Fn.if_ for an already translated condition"""
+        pre = self.take_pre()
+        exits = (ast.Return, ast.Raise, ast.Break, ast.Continue, ast.Try)
+        if not any(isinstance(n, exits) for st in s.body + s.orelse for n in ast.walk(st)):
+            snap = self.snapshot()
+            try:
+                return self.wrap(pre, self.join(s, c, rest, env, k, after))
+            except NoJoin:
+                self.restore(snap)
+        return self.wrap(pre, ("if", c, self.block(s.body + rest, env, k, after), self.block(s.orelse + rest, env, k, after)))
 
     def module_fn(self, m, name, node):
         """the translated module-level function `name` of netaddr/strategy/<m>.py (any unit over that file)"""
@@ -2174,6 +2255,16 @@ class FnF(Fn):
             base = env.get(head) if head in env else self.attrs.get(head)
             if base and base[0] == "edialect" and tail in ("word_size", "num_words", "word_sep", "word_fmt"):
                 return ("int" if tail in ("word_size", "num_words") else "str", "(d_%s %s)" % (tail, base[1]))
+        if (isinstance(node, ast.Name) and node.id not in env and isinstance(node.ctx, ast.Load) and self.recv is None
+                and node.id in SRCF_TABLES.get(self.tr.prefix, {}) and self.mod.toplevel(node.id)):
+            return (("list", Cell("pat")), SRCF_TABLES[self.tr.prefix][node.id])       # the list of compiled patterns: the matchers
+        if isinstance(node, ast.Tuple) and len(node.elts) == 1 and isinstance(node.ctx, ast.Load):
+            ty, t = self.ex(node.elts[0], env)
+            if ty == "str":
+                return (("list", Cell("str")), "[%s]" % t)
+            if is_list(ty) and ty[1].find().t == "str":     # (g,) where g is the groups of a one-group match: that group, as text
+                return (("list", Cell("str")), "[py_group_str %s]" % t)
+            bad(node, "1-tuple of %s" % show(ty))
         if (isinstance(node, ast.Name) and node.id not in env and isinstance(node.ctx, ast.Load)
                 and re.fullmatch(r"netaddr\.strategy\.eui(48|64)\.\w+", self.mod.imports.get(node.id) or "")
                 and not node.id.startswith("_")):
@@ -2210,9 +2301,11 @@ class FnF(Fn):
 
     def subscript(self, node, env):
         sl = node.slice
-        if isinstance(sl, ast.Slice) or const_int(sl) is None:
+        if True:
             snap, pre0 = self.snapshot(), list(self.pre)
             ty, t = self.ex(node.value, env)
+            if ty == "matches" and const_int(sl) == 0:      # findall(..)[0]: the groups of the first match (IndexError for [])
+                return ("out", ("list", Cell("str")), "(py_match0 %s)" % t)
             if is_list(ty) and isinstance(sl, ast.Slice):
                 a, b = const_int(sl.lower) if sl.lower is not None else None, const_int(sl.upper) if sl.upper is not None else None
                 if a is not None and b is not None and 0 <= a <= b and sl.step is None:
@@ -2268,6 +2361,19 @@ class FnF(Fn):
                 lty, lt = self.ex(node.args[0], env)
                 unify(node, lty, ("list", Cell("str")), "argument of join")
                 return ("str", "(join %s %s)" % (t, lt))
+            self.restore(snap)
+            self.pre = pre0
+        if (isinstance(f, ast.Attribute) and f.attr == "findall" and isinstance(f.value, ast.Name) and env.get(f.value.id, ("",))[0] == "pat"
+                and len(node.args) == 1 and not node.keywords):
+            ty, t = self.ex(node.args[0], env)              # <compiled pattern>.findall(text): Model/Eui.v match_pat
+            if ty != "str":
+                bad(node, "findall() of %s" % show(ty))
+            return ("matches", "(py_findall %s %s)" % (env[f.value.id][1], t))
+        if self.builtin_call(node, "len", env, 1):
+            snap, pre0 = self.snapshot(), list(self.pre)
+            ty, t = self.ex(node.args[0], env)
+            if ty == "matches":
+                return ("int", "(py_matches_len %s)" % t)
             self.restore(snap)
             self.pre = pre0
         if (self.builtin_call(node, "hash", env, 1) and isinstance(node.args[0], ast.Tuple) and len(node.args[0].elts) == 2):
@@ -2364,6 +2470,15 @@ class FnF(Fn):
                 and env.get(t.values[0].args[0].id, ("",))[0] in ("edialect", "dbad")):
             yes = (env[t.values[0].args[0].id][0] == "edialect") != neg
             return self.block((s.body if yes else s.orelse) + rest, env, k, after)
+        if isinstance(t, ast.Name) and env.get(t.id, ("",))[0] == "optgroups":
+            # `if x:` / `if not x:` on None-or-groups: in the true branch x is the groups (a tuple of text, or the one group's text)
+            x, cn = t.id, self.coqname(s, t.id + "_g")
+            tenv = dict(env)
+            tenv[x] = (("list", Cell("str")), cn)
+            yes, no = (s.orelse, s.body) if neg else (s.body, s.orelse)
+            a_ir = self.block(yes + rest, tenv, k, after)
+            return ("omatch", env[x][1], [("Some", [cn], ("if", "(py_optgroups_truthy (Some %s))" % cn, a_ir, self.block(no + rest, env, k, after))),
+                                          ("None", [], self.block(no + rest, env, k, after))])
         if (isinstance(t, ast.Call) and dotted(t.func) == "_is_int" and "_is_int" not in env
                 and self.mod.imports.get("_is_int") == "netaddr.compat._is_int" and compat_lambda_isinstance("_is_int")):
             if len(t.args) != 1 or t.keywords or not isinstance(t.args[0], ast.Name) or env.get(t.args[0].id, ("",))[0] not in ("str", "int", "eui"):
@@ -2382,6 +2497,16 @@ class FnF(Fn):
             # isinstance(x, C) decided by the declared type of x (C: a class of this module, or the builtin `slice`)
             yes = self.ISINST[(env[t.args[0].id][0], t.args[1].id)] != neg
             return self.block((s.body if yes else s.orelse) + rest, env, k, after)
+        if (len(t.args) == 2 and not t.keywords and isinstance(t.args[1], ast.Name) and t.args[1].id == "tuple" and "tuple" not in env
+                and not self.mod.toplevel("tuple")):
+            snap, pre0 = self.snapshot(), list(self.pre)
+            ty, g = self.ex(t.args[0], env)
+            if is_list(ty) and ty[1].find().t == "str":
+                # isinstance(g, tuple) for the groups of a match: a tuple unless the pattern has exactly one group
+                c = "(py_is_tuple %s)" % g
+                return self.if_cond(s, "(negb %s)" % c if neg else c, rest, env, k, after)
+            self.restore(snap)
+            self.pre = pre0
         return Fn.isinstance_(self, s, t, neg, rest, env, k, after)
 
 
